@@ -33,7 +33,7 @@ RULE = ('spans: Hypothesis-generated comb (1-40 channels, mixed widths/powers, s
         'losses at distinct interior positions in list order as generated, connectors, padding, dispersion scalar / '
         '+slope / per-frequency, pmd_coef, reference wavelength/frequency incl. on a channel) with 0-3 ROADM (global '
         'pmd/pdl or impairment profile of the own / another path type with 1-2 frequency bands; express, add or drop '
-        'path) / Edfa (pmd/pdl) contributions interleaved, some fibres given in metres, x a generated permutation; non-trivial = >=2 fibres with distinct parameters and a non-identity permutation. '
+        'path) / Edfa (pmd/pdl) / Multiband_amplifier (2-3 bands listed in any order, own pmd/pdl per band) contributions interleaved, some fibres given in metres, x a generated permutation; non-trivial = >=2 fibres with distinct parameters and a non-identity permutation. '
         'raman: fibre 1-120 km x comb of 1-24 channels x method/order/solver step/result resolution x 0-2 lumped '
         'losses x one inserted lumped loss; non-trivial = >=1 lumped loss (always: the inserted one). '
         'pumps: RamanFiber 5-80 km, 1-8 channels below 197.5 THz, 1-3 pumps at 200-207 THz (counter, sometimes one co), '
@@ -104,6 +104,22 @@ def _edfa(draw):
 
 
 @st.composite
+def _mbamp(draw, chans):
+    """multiband amplifier: 2-3 bands that together cover every channel slot, split between two channels, the per-band
+    amplifiers listed in a generated order, each with its own pmd/pdl"""
+    cs = sorted(chans, key=lambda c: c['f'])
+    nb = draw(st.integers(2, 3)) if len(cs) >= 3 else 2
+    cuts = sorted(draw(st.lists(st.integers(0, len(cs) - 2), min_size=nb - 1, max_size=nb - 1, unique=True))) if len(cs) >= 2 else []
+    edges = [cs[0]['f'] - cs[0]['slot'] / 2 - 1e12]
+    for i in cuts:
+        edges.append(((cs[i]['f'] + cs[i]['slot'] / 2) + (cs[i + 1]['f'] - cs[i + 1]['slot'] / 2)) / 2)
+    edges.append(cs[-1]['f'] + cs[-1]['slot'] / 2 + 1e12)
+    bands = [{'lo': a, 'hi': b, 'pmd': draw(_pmd()), 'pdl': draw(_pdl()), 'gain': draw(st.sampled_from([10.0, 17.0, 0.0]))}
+             for a, b in zip(edges[:-1], edges[1:])]
+    return {'kind': 'mbamp', 'bands': list(draw(st.permutations(bands)))}
+
+
+@st.composite
 def span_cases(draw):
     chans = draw(st.one_of(spectra.comb(1, 6), spectra.comb(2, 12), spectra.comb(2, 40)))
     f_lo, f_hi = fibres.band_of(chans)
@@ -118,7 +134,7 @@ def span_cases(draw):
         els.append({'kind': 'fiber', 'params': fp})
     if draw(st.booleans()):
         for _ in range(draw(st.integers(1, 3))):
-            other = draw(st.one_of(_roadm(chans), _edfa()))
+            other = draw(st.one_of(_roadm(chans), _edfa(), _mbamp(chans)))
             els.insert(draw(st.integers(0, len(els))), other)
     perm = draw(st.permutations(list(range(len(els)))))
     return {'comb': chans, 'elements': els, 'perm': list(perm)}
@@ -192,7 +208,8 @@ def loss_db_per_km(loss_coef, f):
     """scalar loss or linear interpolation in the per-frequency table (documented: 'loss_coef_per_frequency')"""
     if not isinstance(loss_coef, dict):
         return float(loss_coef)
-    fr, v = loss_coef['frequency'], loss_coef['value']
+    t = fibres.sorted_table(loss_coef)
+    fr, v = t['frequency'], t['value']
     for i in range(len(fr) - 1):
         if fr[i] <= f <= fr[i + 1]:
             return v[i] + (v[i + 1] - v[i]) * (f - fr[i]) / (fr[i + 1] - fr[i])
@@ -200,7 +217,8 @@ def loss_db_per_km(loss_coef, f):
 
 
 def table_lookup(table, f):
-    fr, v = table['frequency'], table['value']
+    t = fibres.sorted_table(table)
+    fr, v = t['frequency'], t['value']
     for i in range(len(fr) - 1):
         if fr[i] <= f <= fr[i + 1]:
             return v[i] + (v[i + 1] - v[i]) * (f - fr[i]) / (fr[i + 1] - fr[i])
@@ -254,6 +272,18 @@ def _build(el, i):
         return r, (lambda si: r(si, degree='out', from_degree='in'))
     from gnpy.tools.json_io import _equipment_from_json
     from gnpy.tools.default_edfa_config import DEFAULT_EXTRA_CONFIG
+    if el['kind'] == 'mbamp':
+        from gnpy.core.elements import Multiband_amplifier
+        mb = Multiband_amplifier(uid=f'mbamp{i}', params={'type_variety': 'mb', 'type_def': 'multi_band', 'bands': [],
+                                                           'amplifiers': [], 'allowed_for_design': False}, amplifiers=[])
+        for k, b in enumerate(el['bands']):
+            lib = copy.deepcopy(_EDFA_LIB)
+            lib['Edfa'][0].update(pmd=b['pmd'], pdl=b['pdl'], f_min=b['lo'], f_max=b['hi'])
+            eq = _equipment_from_json(lib, DEFAULT_EXTRA_CONFIG)
+            # one amplifier per band, attached the way auto-design does it (node.amplifiers[band_name] = Edfa(...))
+            mb.amplifiers[f'band{k}'] = Edfa(uid=f'mbamp{i}', params=dict(eq['Edfa']['amp'].__dict__),
+                                             operational={'gain_target': b['gain'], 'tilt_target': 0, 'out_voa': 0.0})
+        return mb, mb
     lib = copy.deepcopy(_EDFA_LIB)
     lib['Edfa'][0]['pmd'], lib['Edfa'][0]['pdl'] = el['pmd'], el['pdl']
     eq = _equipment_from_json(lib, DEFAULT_EXTRA_CONFIG)
@@ -363,6 +393,10 @@ def _run_spans(case, ctx):
             elif e['kind'] == 'edfa':
                 pmd2 += e['pmd'] ** 2
                 pdl2 += e['pdl'] ** 2
+            elif e['kind'] == 'mbamp':
+                band = next(b for b in e['bands'] if b['lo'] <= f <= b['hi'])
+                pmd2 += band['pmd'] ** 2
+                pdl2 += band['pdl'] ** 2
         if not _close(a['pmd'][k], math.sqrt(pmd2), 1e-12, 1e-30):
             ctx.violation('path:pmd-not-quadrature-sum', f'ch {f}: {a["pmd"][k]!r} expected {math.sqrt(pmd2)!r}')
             return
